@@ -13,6 +13,7 @@ from ..common import Report
 
 PROPERTY = "C08"
 ENGINE = "E1"
+TECHNIQUE = "explicit-state exploration: every settable property x target alphabet as a single step from every depth<=1 state (cold and warm), oracle = similarity + read-back + atomic refusal"
 RULE = (
     "start states = the 18 vertex-based base shapes, every state reached from them by one operation of C03's reflected alphabet, and "
     "curved objects (Circle/Ellipse/Sphere/Ellipsoid x axes x centres); transitions = every settable public property (by reflection) "
